@@ -29,7 +29,7 @@ FILTERS = {"s1": (0x1000, 1, 1, 0), "s1w": (0x1000,), "s2": (0x1001,)}
 
 def bounds(tier):
     if tier == "thorough":
-        return {"H05": "K<=2 over the full alphabet, K=3 over the medium alphabet (two service instances, two sources, two filters) and K=4 over 8 core events (offer P / offer P with reboot evidence / offer Q / stop P / reboot-only P / connection loss / watch / unwatch); TTL symbolic 1..0xFFFFFF (incl. infinite); gaps symbolic 0..2^40 ticks; delivery iteration and batching symbolic; observed when idle after the last event and at the end of time"}
+        return {"H05": "K<=2 over the full alphabet, K=3 over the medium alphabet (two service instances, two sources, two filters) and K=4 over 6 core events (offer P / offer P with reboot evidence / offer Q / stop P / reboot-only P / watch) with a watch-all listener; TTL symbolic 1..0xFFFFFF (incl. infinite); gaps symbolic 0..2^40 ticks; delivery iteration and batching symbolic; observed when idle after the last event and at the end of time"}
     return {"H05": "K<=2 over the full alphabet (offer/stop-offer of 3 service instances from 2 sources, with and without reboot evidence, reboot-only message, connection loss, watch(3 filters)/unwatch, watch-all/unwatch-all; initial listener: none | watch-all | wildcard filter) and K=3 over the core alphabet (one service instance, two sources); TTL symbolic 1..0xFFFFFF; gaps 0..2^40 ticks; delivery iteration and batching symbolic; observed when idle after the last event and at the end of time"}
 
 
@@ -84,11 +84,15 @@ def cases(tier, seed):
     core = _alphabet(1, ["s1w"])
     # medium: service instances (0x1000,1) and (0x1001,1) are indexes 0 and 2
     medium = [e for e in _alphabet(3, ["s1w", "s2"]) if not (e[0] in ("offer", "stop") and e[1] == 1)]
-    core4 = [["offer", 0, "P", 0], ["offer", 0, "P", 1], ["offer", 0, "Q", 0], ["stop", 0, "P", 0], ["rebootmsg", "P"], ["lost"], ["watch", "s1w"], ["unwatch"]]
+    core4 = [["offer", 0, "P", 0], ["offer", 0, "P", 1], ["offer", 0, "Q", 0], ["stop", 0, "P", 0], ["rebootmsg", "P"], ["watch", "s1w"]]
     plan = [(full, 1), (full, 2), (core, 3)] if tier == "quick" else [(full, 1), (full, 2), (medium, 3), (core4, 4)]
     seen = set()
     for alpha, k in plan:
         for init in ("none", "all", "s1w"):
+            if k >= 3 and tier == "thorough" and init == "s1w":
+                continue  # the longest histories start without a listener or with watch-all
+            if k == 4 and init == "none":
+                continue
             for combo in itertools.product(alpha, repeat=k):
                 if not _valid(combo, init):
                     continue
